@@ -190,6 +190,39 @@ Record wls_spec (l : list pt) (a b sa sb r ssr : R) : Prop := mkWlsSpec {
 Lemma sq_pos x : x <> 0 -> 0 < x * x.
 Proof. intros H. destruct (Rtotal_order x 0) as [?|[?|?]]; [nra|contradiction|nra]. Qed.
 
+(* _clip_r (type_a.py, translated as g_fit_clip_r) over the reals: every |r| <= 1 is returned unchanged *)
+Lemma fit_clip_R r : Rabs r <= 1 -> g_fit_clip_r RNum r = Ok r.
+Proof.
+  intros H. unfold g_fit_clip_r. cbn [ltb RNum nabs dyad]. unfold Rltb.
+  destruct (Rlt_dec (IZR 1 * powerRZ 2 0) (Rabs r)) as [C|_]; [simpl in C; lra|]. reflexivity.
+Qed.
+
+(* the wrapper's clip is the identity on every correlation coefficient proper *)
+Lemma wtls_r_R r : Rabs r <= 1 -> g_line_fit_wtls_r RNum r = Ok r.
+Proof. intros H. unfold g_line_fit_wtls_r. rewrite fit_clip_R by exact H. reflexivity. Qed.
+
+Lemma sq_le1_abs x : x * x <= 1 -> Rabs x <= 1.
+Proof. intros H. unfold Rabs. destruct (Rcase_abs x); nra. Qed.
+
+(* the correlation the fits compute is in [-1,1] (Cauchy-Schwarz in the form r^2 = Sx^2/(S*Stt + Sx^2)) *)
+Lemma r_ab_le1 S Stt Sx sa sb :
+  0 < S -> 0 < Stt -> 0 < sa -> 0 < sb ->
+  sa * sa = (1 + Sx * Sx / (S * Stt)) / S -> sb * sb = 1 / Stt ->
+  Rabs (- Sx / (S * Stt * sa * sb)) <= 1.
+Proof.
+  intros HS HT Ha Hb Ea Eb. apply sq_le1_abs.
+  set (D := S * Stt * sa * sb).
+  assert (HD : 0 < D) by (unfold D; repeat apply Rmult_lt_0_compat; assumption).
+  assert (HDD : D * D = S * Stt + Sx * Sx).
+  { unfold D. replace (S * Stt * sa * sb * (S * Stt * sa * sb)) with (S * Stt * (S * Stt) * (sa * sa) * (sb * sb)) by ring.
+    rewrite Ea, Eb. field. split; lra. }
+  assert (Hq : - Sx / D * (- Sx / D) * (D * D) = Sx * Sx) by (field; lra).
+  assert (HST : 0 < S * Stt) by (apply Rmult_lt_0_compat; assumption).
+  set (q2 := - Sx / D * (- Sx / D)) in *.
+  destruct (Rle_dec q2 1) as [|C]; [assumption|exfalso].
+  assert (D * D < q2 * (D * D)) by nra. nra.
+Qed.
+
 Lemma dyad10 : dyad RNum 1%Z 0%Z = 1.
 Proof. simpl. lra. Qed.
 
@@ -251,6 +284,7 @@ Proof.
   nxt H q35 E35. apply div_inv in E35. destruct E35 as [HStt0 E35]. rewrite dyad10 in E35.
   nxt H m36 E36. apply sqrt_inv in E36. destruct E36 as [Hq35 E36].
   nxt H q38 E38. apply div_inv in E38. destruct E38 as [Hden E38].
+  nxt H c39 E39.
   nxt H l42 E42.
   apply (mapM3_inv _ px py pu
            (fun p => (py p - va - vb * px p) / pu p * ((py p - va - vb * px p) / pu p)) (fun _ => True)) in E42;
@@ -293,6 +327,13 @@ Proof.
   assert (H33 : 0 < m33) by (rewrite E33; apply sqrt_lt_R0; exact Hq32pos).
   assert (H36 : 0 < m36).
   { rewrite E36, E35. apply sqrt_lt_R0. apply Rdiv_lt_0_compat; lra. }
+  (* r_ab = _clip_r(q38) and |q38| <= 1: the clip is the identity *)
+  assert (Hc39 : c39 = q38).
+  { rewrite (fit_clip_R q38) in E39; [injection E39 as <-; reflexivity|].
+    rewrite E38. apply r_ab_le1; [exact HSpos|exact HSttpos|exact H33|exact H36| |].
+    - rewrite Hm33, E32, E31. reflexivity.
+    - rewrite Hm36, E35. reflexivity. }
+  subst c39.
   constructor.
   - exact Hu.
   - rewrite <- HvS, <- HvSx, <- HvSy. rewrite Ea. field. auto.
@@ -480,6 +521,7 @@ Proof.
   nxt H q24 E24. apply div_inv in E24. destruct E24 as [HStt0 E24]. rewrite dyad10 in E24.
   nxt H m25 E25. apply sqrt_inv in E25. destruct E25 as [Hq24 E25].
   nxt H q27 E27. apply div_inv in E27. destruct E27 as [Hden E27].
+  nxt H c28 E28.
   nxt H l30 E30.
   apply (mapM2_inv _ px py (fun p => (py p - va - vb * px p) * (py p - va - vb * px p)) (fun _ => True)) in E30;
     [|intros p z Hz; pw Hz; pwfin].
@@ -514,6 +556,12 @@ Proof.
   assert (H22 : 0 < m22) by (rewrite E22; apply sqrt_lt_R0; exact Hq21pos).
   assert (H25 : 0 < m25).
   { rewrite E25, E24. apply sqrt_lt_R0. apply Rdiv_lt_0_compat; lra. }
+  assert (Hc28 : c28 = q27).
+  { rewrite (fit_clip_R q27) in E28; [injection E28 as <-; reflexivity|].
+    rewrite E27. apply r_ab_le1; [lra|exact HSttpos|exact H22|exact H25| |].
+    - rewrite Hm22, E21, E20. reflexivity.
+    - rewrite Hm25, E24. reflexivity. }
+  subst c28.
   split; [exact E1|]. split; [exact E2|]. split; [lia|].
   split; [reflexivity|]. rewrite <- E33. split; [exact Hq33|].
   split.
@@ -594,6 +642,11 @@ Proof.
   assert (Hs2 : 0 < sqrt (1 / vStt)) by (apply sqrt_lt_R0; exact Hq35).
   rewrite div_ok.
   2:{ cbn [mul RNum]. apply Rgt_not_eq. repeat apply Rmult_lt_0_compat; lra. }
+  cbn [bind]. cbn [neg mul RNum].
+  rewrite fit_clip_R.
+  2:{ apply r_ab_le1; try lra.
+      - rewrite sqrt_sqrt by lra. unfold q32. reflexivity.
+      - rewrite sqrt_sqrt by lra. reflexivity. }
   cbn [bind].
   rewrite (mapM3_fwd _ px py pu (fun p => (py p - va - vb * px p) / pu p * ((py p - va - vb * px p) / pu p)))
     by (intros p Hp; cbn beta; rewrite div_ok by auto; cbn [bind]; rewrite pow2_ok; reflexivity).
@@ -906,6 +959,11 @@ Proof.
   assert (Hs2 : 0 < sqrt (1 / vStt)) by (apply sqrt_lt_R0; exact Hq24).
   rewrite div_ok.
   2:{ cbn [mul RNum]. apply Rgt_not_eq. repeat apply Rmult_lt_0_compat; lra. }
+  cbn [bind]. cbn [neg mul RNum].
+  rewrite fit_clip_R.
+  2:{ apply r_ab_le1; try lra.
+      - rewrite sqrt_sqrt by lra. unfold q21. reflexivity.
+      - rewrite sqrt_sqrt by lra. reflexivity. }
   cbn [bind].
   rewrite (mapM2_fwd _ px py (fun p => (py p - va - vb * px p) * (py p - va - vb * px p)))
     by (intros p Hp; cbn beta; rewrite pow2_ok; reflexivity).
@@ -999,3 +1057,105 @@ Proof.
   split; [exact Eb|]. split; [exact Ea|].
   split; [rewrite Edf, Edf', L1, L2; reflexivity|rewrite Hn, Hn', L1, L2; reflexivity].
 Qed.
+
+(* ================= float level (FNum, any oracle table): the r_ab handed to set_correlation ================= *)
+From Coq Require Import PrimFloat.
+From GTCV Require Import FNum.
+
+(* _clip_r returns its argument or exactly +-1 *)
+Lemma fit_clip_float_cases tbl (r : float) :
+  exists c, g_fit_clip_r (FNum tbl) r = Ok c /\ (c = r \/ c = 1%float \/ c = (-1)%float).
+Proof.
+  unfold g_fit_clip_r.
+  match goal with |- context [if ?b then _ else _] => destruct b end.
+  - eexists. split; [reflexivity|].
+    match goal with |- context [if ?b then _ else _] => destruct b end; [right; left|right; right]; reflexivity.
+  - eexists. split; [reflexivity|]. left. reflexivity.
+Qed.
+
+(* peel the binds of a generated body up to the call of _clip_r *)
+Ltac peel_to_clip H :=
+  repeat match type of H with
+         | bind (g_fit_clip_r _ _) _ = Ok _ => fail 1
+         | bind _ _ = Ok _ =>
+             let v := fresh "v" in let E := fresh "E" in
+             apply bind_ok in H; destruct H as (v & E & H); clear E
+         end.
+Ltac peel_all H :=
+  repeat match type of H with
+         | bind _ _ = Ok _ =>
+             let v := fresh "v" in let E := fresh "E" in
+             apply bind_ok in H; destruct H as (v & E & H); clear E
+         end.
+
+(* in every binary64 run of _line_fit_wls / line_fit that returns, the correlation returned (the one
+   passed to a.set_correlation) is _clip_r of the computed quotient: that quotient itself, or exactly
+   +-1 when the quotient was in the rounding band just outside [-1,1] *)
+Theorem wls_kernel_r_clipped tbl x y u a b sa sb r ssr n :
+  g__line_fit_wls (FNum tbl) x y u = Ok (a, b, sa, sb, r, ssr, n) ->
+  exists r0, g_fit_clip_r (FNum tbl) r0 = Ok r /\ (r = r0 \/ r = 1%float \/ r = (-1)%float).
+Proof.
+  intros H. unfold g__line_fit_wls in H. cbv zeta in H.
+  peel_to_clip H.
+  apply bind_ok in H. destruct H as (c & Ec & H).
+  peel_all H. injection H as _ _ _ _ <- _ _.
+  match type of Ec with g_fit_clip_r _ ?r0 = _ =>
+    exists r0; split; [exact Ec|]; destruct (fit_clip_float_cases tbl r0) as (c' & Ec' & Hc') end.
+  rewrite Ec in Ec'. injection Ec' as <-. exact Hc'.
+Qed.
+
+Theorem ols_r_clipped tbl x y fs :
+  g_line_fit (FNum tbl) x y = Ok fs ->
+  exists r0, g_fit_clip_r (FNum tbl) r0 = Ok (fs_r fs) /\
+             (fs_r fs = r0 \/ fs_r fs = 1%float \/ fs_r fs = (-1)%float).
+Proof.
+  intros H. unfold g_line_fit in H. cbv zeta in H.
+  match type of H with (if ?c then _ else _) = _ => destruct c; [discriminate|] end.
+  peel_to_clip H.
+  apply bind_ok in H. destruct H as (c & Ec & H).
+  peel_all H. injection H as <-. cbn [fs_r].
+  match type of Ec with g_fit_clip_r _ ?r0 = _ =>
+    exists r0; split; [exact Ec|]; destruct (fit_clip_float_cases tbl r0) as (c' & Ec' & Hc') end.
+  rewrite Ec in Ec'. injection Ec' as <-. exact Hc'.
+Qed.
+
+Theorem wls_r_clipped tbl x y u dof fs :
+  g_line_fit_wls (FNum tbl) x y u dof = Ok fs ->
+  exists r0, g_fit_clip_r (FNum tbl) r0 = Ok (fs_r fs) /\
+             (fs_r fs = r0 \/ fs_r fs = 1%float \/ fs_r fs = (-1)%float).
+Proof.
+  intros H. unfold g_line_fit_wls in H. cbv zeta in H.
+  match type of H with (if ?c then _ else _) = _ => destruct c; [discriminate|] end.
+  apply bind_ok in H. destruct H as ([[[[[[a b] sa] sb] r] ssr] n] & Hk & H).
+  apply wls_kernel_r_clipped in Hk.
+  apply bind_ok in H. destruct H as (d & _ & H). injection H as <-. exact Hk.
+Qed.
+
+Theorem rwls_r_clipped tbl x y u dof fs :
+  g_line_fit_rwls (FNum tbl) x y u dof = Ok fs ->
+  exists r0, g_fit_clip_r (FNum tbl) r0 = Ok (fs_r fs) /\
+             (fs_r fs = r0 \/ fs_r fs = 1%float \/ fs_r fs = (-1)%float).
+Proof.
+  intros H. unfold g_line_fit_rwls in H. cbv zeta in H.
+  apply bind_ok in H. destruct H as (d & _ & H).
+  match type of H with (if ?c then _ else _) = _ => destruct c; [discriminate|] end.
+  apply bind_ok in H. destruct H as ([[[[[[a b] sa] sb] r] ssr] n] & Hk & H).
+  apply wls_kernel_r_clipped in Hk.
+  peel_all H. injection H as <-. exact Hk.
+Qed.
+
+(* the line_fit_wtls wrapper: the correlation r of the type-B (a, b) is re-declared as _clip_r(r) *)
+Theorem wtls_r_clipped tbl (r c : float) :
+  g_line_fit_wtls_r (FNum tbl) r = Ok c ->
+  g_fit_clip_r (FNum tbl) r = Ok c /\ (c = r \/ c = 1%float \/ c = (-1)%float).
+Proof.
+  intros H. unfold g_line_fit_wtls_r in H. apply bind_ok in H. destruct H as (c' & Ec & H). injection H as <-.
+  split; [exact Ec|]. destruct (fit_clip_float_cases tbl r) as (c2 & Ec2 & Hc2).
+  rewrite Ec in Ec2. injection Ec2 as <-. exact Hc2.
+Qed.
+
+(* so the ValueError of set_correlation_real (|r| > 1) is no longer raised for a correlation in the
+   rounding band: a value of exactly +-1 is accepted *)
+Lemma clipped_one_accepted :
+  PrimFloat.ltb 1%float (PrimFloat.abs 1%float) = false /\ PrimFloat.ltb 1%float (PrimFloat.abs (-1)%float) = false.
+Proof. split; reflexivity. Qed.
